@@ -368,14 +368,17 @@ fn make_etag(
         return None;
     }
 
-    let parsed_uri = Url::parse(&format!("https://example.com{uri}")).unwrap();
-    let mut query_pairs = parsed_uri.query_pairs();
+    let parsed_uri = Url::parse(&format!("https://example.com{uri}")).ok()?;
 
-    let (cup2key_key, cup2key_val) = query_pairs.next().unwrap();
-    assert_eq!(cup2key_key, "cup2key");
+    // The service URL may have a path and query parameters of its own; the client appends its
+    // cup2key as the last query parameter. A request without one is simply not a CUP request.
+    let (_, cup2key_val) = parsed_uri
+        .query_pairs()
+        .filter(|(key, _)| key == "cup2key")
+        .last()?;
 
-    let (public_key_id_str, _nonce_str) = cup2key_val.split_once(':').unwrap();
-    let public_key_id: PublicKeyId = public_key_id_str.parse().unwrap();
+    let (public_key_id_str, _nonce_str) = cup2key_val.split_once(':')?;
+    let public_key_id: PublicKeyId = public_key_id_str.parse().ok()?;
     let private_key: &PrivateKey = match private_keys.find(public_key_id) {
         Some(pk) => Some(pk),
         None => {
